@@ -304,7 +304,7 @@ pub const ALT_CONFIG: bool = cfg!(feature = "lib-compact");
 
 pub fn library_configuration() -> &'static str {
     if ALT_CONFIG {
-        "scpi built without `std` (no_std + alloc) and with `compact` (lexical-core's compact algorithms), arrayvec, all unit features"
+        "scpi built without `std` (no_std + alloc) and with `compact` (lexical-core's compact algorithms), arrayvec, all unit features; scpi-contrib with its `unproven` feature"
     } else {
         "scpi with alloc + arrayvec + std and all unit features (default of the harness)"
     }
